@@ -7,19 +7,23 @@ import terms as T
 from facts import callee_name
 from pathsens import PathSens
 from props.c10 import loop_info, iter_loop_header
+import multicas
+from props import c01
 
 KINDS = ["core"]
 LEVEL_TEXT = ("loop-domain rule over rustc MIR of the four search loops of the lower level: decides that each loop ranges over its whole "
               "domain (evaluated constants per compile-time configuration), visits (start + i) % domain, and leaves only by exhaustion or "
               "with a claimed block; that the per-row bit trick finds a block is C23's clause, modular-permutation arithmetic is assumed")
-TECHNIQUE = "iterator-domain terms with evaluated constants, index-shape check, loop-exit analysis"
+TECHNIQUE = "iterator-domain terms with evaluated constants, index-shape check, loop-exit analysis, multi-CAS rollback range analysis"
 EXPLANATION = (
     "R-SEARCH-LOOPS, for Lower::get (huge-order loop and base-order loop), Bitfield::set_first_zeros and Bitfield::set_first_zero_rows: "
     "(a) the iteration domain is the full one: 0..TREE_HUGE (stepped by 2^(order-HUGE_ORDER) for huge orders), 0..self.data.len(), "
     "self.data.chunks(num_rows) over the whole row array; (b) the visited element is (hint + i) % domain with the same domain, so every "
     "element is visited once; (c) the loop is left only by iterator exhaustion or by `return Ok(..)`; a failed attempt continues with "
     "the next element. A shortened range or an early exit makes a tree whose only free aligned block is in the last row / last huge "
-    "frame (or before the hint) report out-of-memory."
+    "frame (or before the hint) report out-of-memory. R-AON / R-UNDO-RANGE (shared with C01/C02): a search attempt that takes "
+    "several words either keeps all of them or rolls back exactly the ones it took, so a failed attempt leaves no block marked and a "
+    "success marks exactly the returned block."
 )
 
 
@@ -242,3 +246,6 @@ def run(rep, programs):
             return False, "result row is not i * num_rows"
         check_loop(rep, rule, b, tm, prog, fn + "|chunk-loop", h, blocks, exits, 0, "self.data.chunks(2^(order-6)) over all rows", hi_ok, index_ok)
     rep.floor(rule, "search loops checked", n, 4)
+    # a failed multi-word attempt leaves nothing marked; a success marks exactly the block
+    c01.r_aon(rep, prog)
+    multicas.check_undo_range(rep, prog, "R-UNDO-RANGE", lib.need_body)
